@@ -15,7 +15,7 @@ import math
 
 import numpy as np
 
-from harness import engine
+from harness import engine, memo
 
 PROP = "C07"
 LEVEL = "model_checking"
@@ -251,6 +251,7 @@ def run(rep: engine.Report, tier: str, seed: int):
     results = engine.parallel_replay("harness.props.c07", "replay", allc)
     engine.collect(rep, allc, results, key=lambda c: (c.get("part"), c.get("model"), c["cfg"]) if c.get("part") == "wedge" else (c.get("cfg") or c))
     rep.traces_validated = len(allc)
+    memo.run_family(rep, ["zncc_landscape", "pcc_landscape"])
     rep.samples = [dict(cfg=exact[0]["cfg"], score=exact[0]["score"]), rel[0], ldr[0]]
     rep.rule = (
         f"exact: TLC computes NCC/ZNCC triples for 5 integer image pairs x boxes (2,2,2),(3,3,3),(2,3,4),(4,4,4) x masks none/binary/"
